@@ -1,7 +1,9 @@
 (* Correspondence entry point for C01.
    case   = VTup [VList xs; numSlices (VInt n | VNone); VList stages; action]   (codes: Model/RddLib.v)
    result = VList [glom().collect() after parallelize; ... after every stage ...; result of the action]
-            with VErr "ExceptionClass" in place of (and ending the list at) the first step that raised. *)
+            with VErr "ExceptionClass" in place of (and ending the list at) the first step that raised.
+   sweep case = VTup [VInt L; VInt n]: parallelize(range(L), n) observed compactly as
+            VTup [count(); collect(); number of partitions; (index, size) of the non-empty partitions]. *)
 From Coq Require Import String ZArith List.
 Require Import PV.Base.Val PV.Model.Rdd PV.Model.RddLib.
 Import ListNotations.
@@ -15,5 +17,6 @@ Definition run (c : val) : val :=
       | Some n, Some ts, Some a' => VList (observe ts a' (parallelize xs n))
       | _, _, _ => VBad
       end
+  | VTup [VInt L; VInt n] => observe_sweep L n      (* slice-count sweep: parallelize(range(L), n) *)
   | _ => VBad
   end.
